@@ -137,6 +137,27 @@ def run(tier):
         scen.append(sc)
     for i in range(int(n * 0.04)):
         scen.append(lazycase_scen(rng, "sync" if i % 2 else "emit"))
+    # != against an explicit NULL / a missing column is not true, in a CASE condition and as a select item, whatever rows came before
+    # (also after a row whose value makes the fast path fail: a text where a number is expected)
+    for i in range(int(n * 0.03)):
+        lit = rng.choice([0, 1, 2, 5])
+        cmpe = {"t": "cmp", "op": "!=", "a": exprgen.col("x"), "b": exprgen.num(lit)}
+        if i % 2:
+            e = {"t": "case", "whens": [{"c": cmpe, "r": exprgen.strlit("diff")}], "else": exprgen.strlit("other")}
+        else:
+            e = cmpe
+        rows = []
+        for j in range(rng.choice([5, 7])):
+            k = rng.random()
+            r = {"id": j + 1}
+            if k < 0.5: r["x"] = rng.choice([0, 1, 2, 5, {"$f": 2.0}])
+            elif k < 0.85: r["x"] = None          # (a MISSING column makes x != 5 true / the CASE NULL: recorded family NullNotEqualIsTrue / CaseNullOperandPoisons)
+            else: r["x"] = "abc"                 # outside the decided domain for this row (any value) - but it must not change what later rows give
+            rows.append(r)
+        meta = {"fam": "direct", "star": 0, "chan": 0, "sel": [{"al": "id", "e": exprgen.col("id")}, {"al": "r0", "e": e}], "profile": "neq_null_hist"}
+        sc = {"meta": meta, "sql": "SELECT id, %s AS r0 FROM stream" % sql(e), "rows": rows, "noretype": True}
+        if i % 3 == 0: sc["mode"] = "sync"
+        scen.append(sc)
     # long predicates (30-40 comparisons, well over 100 tokens): a long WHERE is a WHERE
     gl = Gen(rng, nulls=False, cases=False, nots=False, flat=True)
     for i in range(20 if quick else 600):
